@@ -29,6 +29,13 @@ type handlerRoles struct {
 	resolved  map[types.Object]*ast.CallExpr // var := resolveControllerRef(...)
 	matched   map[types.Object]bool          // var := getStatefulSetsForPod(...)
 	forwardTo []*ast.CallExpr                // calls of deletePod (delegation)
+	// enqueue calls that sit in a helper expanded into the handler: the helper and the handler's call of it
+	viaHelper map[*ast.CallExpr]helperUse
+}
+
+type helperUse struct {
+	hfi *load.FuncInfo
+	top *ast.CallExpr
 }
 
 func (c *Ctx) handler(name string) *handlerRoles {
@@ -36,7 +43,7 @@ func (c *Ctx) handler(name string) *handlerRoles {
 	if fi == nil {
 		return nil
 	}
-	h := &handlerRoles{fi: fi, resolved: map[types.Object]*ast.CallExpr{}, matched: map[types.Object]bool{}}
+	h := &handlerRoles{fi: fi, resolved: map[types.Object]*ast.CallExpr{}, matched: map[types.Object]bool{}, viaHelper: map[*ast.CallExpr]helperUse{}}
 	h.fn, h.an = c.Analysis(fi)
 	info := fi.Pkg.TypesInfo
 	enq := c.Func(load.CtrlPkg, "StatefulSetController.enqueueStatefulSet")
@@ -50,6 +57,15 @@ func (c *Ctx) handler(name string) *handlerRoles {
 		f := gf.StaticCallee(info, call)
 		if f == nil {
 			continue
+		}
+		// a small helper expanded into the handler that enqueues (e.g. one that enqueues every set of a slice)
+		if hfi := c.P.FuncInfoOf(f); hfi != nil && hfi != enq && hfi != del && hfi != res && hfi != gs && hfi.Pkg == fi.Pkg && c.liftedAway(hfi) {
+			for _, c2 := range callsIn(hfi.Decl.Body, false) {
+				if f2 := gf.StaticCallee(info, c2); f2 != nil && f2.Origin() == enq.Obj {
+					h.enqueues = append(h.enqueues, c2)
+					h.viaHelper[c2] = helperUse{hfi, call}
+				}
+			}
 		}
 		switch f.Origin() {
 		case enq.Obj:
@@ -220,6 +236,15 @@ func (c *Ctx) skipDiscipline(h *handlerRoles) int {
 		for _, sk := range scopedSkips {
 			if sc := sk.obj.Parent(); sc != nil && sc.Contains(pos) && sk.obj.Pos() < pos {
 				all = append(all, sk.f)
+				continue
+			}
+			// out of its scope here (`if set := resolve(..); set != nil {..}; return`): the fact still speaks about
+			// this exit if the lookup that defined the variable lies on every path to it
+			if def := h.resolved[sk.obj]; def != nil {
+				a2 := fn.FromUntil(entry, gf.TrueState(), append(append([]ast.Node{}, stops...), def)...)
+				if !a2.StateBefore(at).Reachable() && at != ast.Node(fi.Decl.Body) {
+					all = append(all, sk.f)
+				}
 			}
 		}
 		c.Implies(st, gf.Or(all...), "C16.2-skip-discipline", fmt.Sprintf("%s: exit without enqueue [%s]", fi.Obj.Name(), where), at.Pos())
@@ -404,13 +429,37 @@ func (c *Ctx) enqueueClasses() {
 				_ = st
 				c.mustReachOrSkip(h, e, enable, gf.FNil(gf.Var(obj)), "C16.2-enqueue-not-over-guarded", ename+" ["+class+"]")
 			default:
-				// orphan loop: range over the matched sets
-				loop, _ := innermostLoop(fi.Decl.Body, e).(*ast.RangeStmt)
+				// orphan loop: range over the matched sets (in the handler, or in a helper that is handed the matched sets)
+				loopHost := fi.Decl.Body
+				via, inHelper := h.viaHelper[e]
+				if inHelper {
+					loopHost = via.hfi.Decl.Body
+				}
+				loop, _ := innermostLoop(loopHost, e).(*ast.RangeStmt)
 				okLoop := false
 				if loop != nil {
-					if id, ok := ast.Unparen(loop.X).(*ast.Ident); ok && h.matched[info.ObjectOf(id)] {
-						if v, ok := loop.Value.(*ast.Ident); ok && info.ObjectOf(v) == obj {
-							okLoop = true
+					if id, ok := ast.Unparen(loop.X).(*ast.Ident); ok {
+						ranged := info.ObjectOf(id)
+						if inHelper {
+							// the helper's slice parameter -> the handler's argument
+							k := 0
+							var mapped types.Object
+							for _, pf := range via.hfi.Decl.Type.Params.List {
+								for _, pn := range pf.Names {
+									if info.ObjectOf(pn) == ranged && k < len(via.top.Args) {
+										if aid, ok := ast.Unparen(via.top.Args[k]).(*ast.Ident); ok {
+											mapped = info.ObjectOf(aid)
+										}
+									}
+									k++
+								}
+							}
+							ranged = mapped
+						}
+						if ranged != nil && h.matched[ranged] {
+							if v, ok := loop.Value.(*ast.Ident); ok && info.ObjectOf(v) == obj {
+								okLoop = true
+							}
 						}
 					}
 				}
